@@ -471,6 +471,8 @@ def p_singleton_two_scopes(b):
                     out.append(plant("singleton_two_scopes", f"cousins:{vname}:{used}:parent@L{lc}",
                                      [("del", path), ("ins", gchild, 0, copy.deepcopy(op)),
                                       ("ins", node, n, NEST([NEST(copy.deepcopy(body), "/g2")], "/c2"))]))
+    for p in out:
+        p["key"] = p["pos"].split(":")[0]  # the geometry: one defect class per arrangement of the two blueprints
     return out
 
 
@@ -803,6 +805,12 @@ def plants_of(b):
         out.extend(f(b))
     for i, p in enumerate(out):
         p["n"] = i
+        # defect class for the violation key: by default the first component of the position (e.g. `notsync`,
+        # `depth2`, `back_edge2`, `removed`), so that the manifestations of one defect at many levels / consumer kinds
+        # collapse to one key
+        if not p.get("key") and p["rule"] in ("not_send_sync", "observer_fallible", "cycle", "missing_constructor", "cin_not_clone",
+                                              "singleton_by_value", "mut_ctor_input"):
+            p["key"] = p["pos"].split(":")[0]
     return out
 
 
@@ -1015,10 +1023,55 @@ def abstract_pos(pos):
     return re.sub(r"@L\d+", "", re.sub(r":L\d+$", "", pos))
 
 
+_RECHECKED = {}
+
+
+def recheck(specs, what):
+    """Determinism rule of BUILDER_BRIEF: before a case is reported it is executed once more.
+    -> {id: second gen observation}. A first outcome that was a time-out or an interfered-with workspace (machine
+    overload, foreign writer in the slot) is replaced by the second one; any other disagreement is a machinery error."""
+    todo = [s for s in specs if s["id"] not in _RECHECKED]
+    if todo:
+        res = L.generate_all(todo, f"{L.E2E_WORK}/plant-recheck-{what}")
+        for s in todo:
+            g = res[s["id"]]
+            g.pop("stdout", None)
+            _RECHECKED[s["id"]] = g
+    return {s["id"]: _RECHECKED[s["id"]] for s in specs}
+
+
+def settle(o, suspicious, what):
+    """Re-execute the suspicious specs; returns (gen dict to judge, number of replaced transient outcomes)."""
+    gen = dict(o["gen"])
+    if not suspicious:
+        return gen, 0
+    second = recheck(suspicious, what)
+    replaced = 0
+    for s in suspicious:
+        a, b = outcome_of(gen[s["id"]]), outcome_of(second[s["id"]])
+        if a == b:
+            continue
+        if a in ("hang", "rejected_uncleanly"):
+            gen[s["id"]] = second[s["id"]]
+            replaced += 1
+            continue
+        raise L.MachineryError(f"nondeterministic pavexc outcome on {s['id']}: first run {a}, second run {b}")
+    return gen, replaced
+
+
 def oracle_c08(obs, rep, tier):
     import oracles as O
     o = obs["plant"]
-    gen = o["gen"]
+    suspicious = []
+    for spec in o["specs"]:
+        pl = spec.get("plant", {})
+        g = o["gen"].get(spec["id"])
+        if g is None or pl.get("kind") not in ("single", "pair"):
+            continue
+        docd = pl.get("documented") if pl["kind"] == "single" else any(m["documented"] for m in pl["members"])
+        if docd and outcome_of(g) != "rejected":
+            suspicious.append(spec)
+    gen, n_replaced = settle(o, suspicious, "c08")
     hist = collections.defaultdict(collections.Counter)
     diag_hist = collections.defaultdict(collections.Counter)
     classes = set()
@@ -1128,6 +1181,7 @@ def oracle_c08(obs, rep, tier):
         "unexpected_first_diagnostics": {r: dict(c.most_common(6)) for r, c in diag_hist.items()},
         "unspecified_outcomes": dict(sorted(unspecified.items())),
         "pair_histogram": dict(pair_hist), "controls": controls,
+        "re_executed_before_reporting": len(suspicious), "transient_timeouts_or_interference_replaced_by_second_run": n_replaced,
         "bases": {"accepted": sum(base_ok.values()), "rejected": sorted(k for k, v in base_ok.items() if not v)},
         "stats": o.get("stats"),
     }
@@ -1138,7 +1192,17 @@ def oracle_c08(obs, rep, tier):
 
 def oracle_c09_plant(obs, rep, tier):
     import oracles as O
-    return O.oracle_c09({"plant": obs["plant"]}, rep, tier)
+    o = obs["plant"]
+    suspicious = [s for s in o["specs"] if s["id"] in o["gen"] and (
+        outcome_of(o["gen"][s["id"]]) in ("hang", "panic", "rejected_uncleanly") or o["gen"][s["id"]].get("root_manifest_changed")
+        or o["gen"][s["id"]]["exit"] not in (0, 1))]
+    gen, n_replaced = settle(o, suspicious, "c09")
+    o2 = dict(o)
+    o2["gen"] = gen
+    lvl, cov, asm = O.oracle_c09({"plant": o2}, rep, tier)
+    cov["re_executed_before_reporting"] = len(suspicious)
+    cov["transient_timeouts_or_interference_replaced_by_second_run"] = n_replaced
+    return lvl, cov, asm
 
 
 PROPERTIES = {"C08": (lambda tier: ["plant"], oracle_c08), "C09": (lambda tier: ["plant"], oracle_c09_plant)}
